@@ -121,6 +121,12 @@ def rk_name_id(ctx):
             ok = k == "ok" and {kk: list(vv) for kk, vv in v.items()} == want
             r.check(ok, "C18.RK", mq.qual, f"merge {a} + {b}", f"merge_qualifiers({a}, {b}) -> {k}:{v}; key-wise sorted set union is {want}", mq)
             if ok:
+                from ..interp import DDict
+                r.check(not (isinstance(v, DDict) and v.factory is not None) and all(isinstance(vv, list) for vv in v.values()),
+                        "C18.RK", mq.qual, f"merge result is a plain dictionary of lists {a} + {b}",
+                        f"merge_qualifiers({a}, {b}) returns a {'defaultdict' if isinstance(v, DDict) else type(v).__name__} with values "
+                        f"{sorted({type(vv).__name__ for vv in v.values()})}: looking up a key neither input has must raise KeyError and leave the "
+                        f"key set alone (a defaultdict inserts it), and every value is a sorted list", mq)
                 r.check(all(vv is not a.get(kk) and vv is not b.get(kk) for kk, vv in v.items()), "C18.RK", mq.qual, f"merge result is fresh {a} + {b}",
                         "merge_qualifiers returns the caller's own list objects", mq)
 
